@@ -217,7 +217,9 @@ static int cmd_observe(const char* inp, const char* outp) {
     w.kv("ccid", conv_name(cc.id())).kv("cp", cc.has_flag(CallConvFlags::kCalleePopsStack))
      .kv("rz", cc.red_zone_size()).kv("sz", cc.spill_zone_size()).kv("nsa", cc.natural_stack_alignment());
     put_masks(w, "pres", cc.preserved_regs(RegGroup::kGp), cc.preserved_regs(RegGroup::kVec), cc.preserved_regs(RegGroup::kMask), cc.preserved_regs(RegGroup::kX86_MM));
+    w.kv("abort", "");      // filled in by the runner when the sanitizer build aborted on this input
     w.endObj().emit(out);
+    fflush(out);
   }
   fclose(out);
   return 0;
@@ -349,7 +351,7 @@ static void run_shuffle(const vj::Value& in, const Environment& env, FILE* out) 
       w.endArr().endObj();
       ninst++;
     }
-    else if (n->type() != NodeType::kComment) {
+    else if (n->type() != NodeType::kComment && n->type() != NodeType::kSection && n->type() != NodeType::kLabel && n->type() != NodeType::kAlign) {
       foreign = true;
     }
   }
@@ -363,7 +365,9 @@ static void run_shuffle(const vj::Value& in, const Environment& env, FILE* out) 
     e5 = b.serialize_to(&a);
   }
   w.kv("enc", err_name(e5));
+  w.kv("abort", "");        // filled in by the runner when the sanitizer build aborted on this input
   w.endObj().emit(out);
+  fflush(out);
 }
 
 static int cmd_shuffle(const char* inp, const char* outp) {
